@@ -11,6 +11,7 @@ import (
 	"math"
 	"os"
 	"path/filepath"
+	"regexp"
 	"sort"
 	"strings"
 	"time"
@@ -81,6 +82,10 @@ type ctx struct {
 	nativeEvery int
 	parsedOnce  map[string]bool
 	nativeCount int
+	// every renameEvery-th agreeing case is repeated with a member name spelled outside ASCII (0 = off)
+	renameEvery int
+	renameCount int
+	inRename    bool
 	rng         *rng
 	drv         *driver
 	rep         *Report
@@ -96,7 +101,7 @@ func newCtx(prop, tier string, seed int64) (*ctx, error) {
 	if err != nil {
 		return nil, err
 	}
-	c := &ctx{prop: prop, tier: tier, seed: seed, nativeEvery: nativeEveryFor(prop), rng: newRng(seed), drv: d,
+	c := &ctx{prop: prop, tier: tier, seed: seed, nativeEvery: nativeEveryFor(prop), renameEvery: 6, rng: newRng(seed), drv: d,
 		seen: map[[20]byte]bool{}, start: time.Now(), maxDis: 25}
 	c.rep = &Report{Property: prop, Tier: tier, Seed: seed, SkipReasons: map[string]int{},
 		Buckets: map[string]int{}, Outcomes: map[string]int{}}
@@ -241,7 +246,80 @@ func (c *ctx) diffEval(prog string, input interface{}, bucket string) (string, s
 			}
 		}
 	}
+	// derived case: the same program and document with the member name `a` (or `b`) spelled in another script.  Names
+	// are compared as texts, so the implementation and the model must still agree (both are run on the renamed pair;
+	// nothing is assumed about the renamed program's meaning).  The code points are chosen so that their low byte is an
+	// ASCII symbol, digit, quote or white space: a lexer table indexed by a truncated rune splits such names.
+	if c.renameEvery > 0 && !c.inRename {
+		c.renameCount++
+		if c.renameCount%c.renameEvery == 0 {
+			c.inRename = true
+			from := []string{"a", "b"}[c.rng.intn(2)]
+			to := exoticName(c.rng)
+			c.diffEval(renameWord(prog, from, to), renameKeys(input, from, to), bucket+"/renamed-member")
+			c.inRename = false
+		}
+	}
 	return g.outcome, m, true
+}
+
+var reWordA = regexp.MustCompile(`\ba\b`)
+var reWordB = regexp.MustCompile(`\bb\b`)
+
+func renameWord(prog, from, to string) string {
+	re := reWordA
+	if from == "b" {
+		re = reWordB
+	}
+	return re.ReplaceAllLiteralString(prog, to)
+}
+
+func renameKeys(v interface{}, from, to string) interface{} {
+	switch x := v.(type) {
+	case map[string]interface{}:
+		out := make(map[string]interface{}, len(x))
+		for k, e := range x {
+			if k == from {
+				k = to
+			}
+			out[k] = renameKeys(e, from, to)
+		}
+		return out
+	case []interface{}:
+		out := make([]interface{}, len(x))
+		for i, e := range x {
+			out[i] = renameKeys(e, from, to)
+		}
+		return out
+	}
+	return v
+}
+
+// exoticName: one or two code points outside ASCII (Latin Extended, Cyrillic, CJK, emoticons), optionally around an
+// ASCII letter; every low byte 0..255 occurs.
+func exoticName(r *rng) string {
+	one := func() string {
+		switch r.intn(4) {
+		case 0:
+			return string(rune(0x0100 + r.intn(0x80))) // Latin Extended-A
+		case 1:
+			return string(rune(0x0400 + r.intn(0x100))) // Cyrillic
+		case 2:
+			return string(rune(0x4E00 + r.intn(0x100) + 0x100*r.intn(0x40))) // CJK
+		default:
+			return string(rune(0x1F600 + r.intn(0x50))) // emoticons
+		}
+	}
+	switch r.intn(4) {
+	case 0:
+		return one()
+	case 1:
+		return "x" + one()
+	case 2:
+		return one() + "x"
+	default:
+		return one() + one()
+	}
 }
 
 func (c *ctx) finish() *Report {
